@@ -329,12 +329,28 @@ pub fn run(ctx: &Ctx) -> Report {
             prog.push(print_stmt(invoke(Expr::RawNum(with_frac, vf), "derives", vec![var("Num")])));
             let two = format!("{}.{}", dstr, dstr);
             let v2: f64 = two.parse().unwrap();
-            prog.push(print_stmt(bin(BinOp::Range, lit(), bin(BinOp::Add, Expr::RawNum(two.clone(), v2), num(0.0)))));
+            // (a fractional end point is a ValueError: caught, so that the batch goes on)
+            prog.push(st(StmtKind::Try(vec![print_stmt(bin(BinOp::Range, lit(), bin(BinOp::Add, Expr::RawNum(two.clone(), v2), num(0.0))))], Some(("e".into(), vec![print_stmt(call(var("type"), vec![var("e")]))])), None)));
         }
         cases.push(Case::new("A3_digit_run_contexts", prog));
     }
-    let hooks = Hooks { attribute: &|_c, _m, _o, _mm| None, nontrivial: &|_c, m| m.out.len() >= 2, fuel: 50_000_000 };
+    // vacuity guard: a program that ends early in the model (an error escaping a probe) would silently skip
+    // everything behind that point
+    let ended_early = std::sync::atomic::AtomicUsize::new(0);
+    let hooks = Hooks {
+        attribute: &|_c, _m, _o, _mm| None,
+        nontrivial: &|_c, m| {
+            if !matches!(m.outcome, crate::meval::Outcome::Ok) {
+                ended_early.fetch_add(1, std::sync::atomic::Ordering::Relaxed);
+            }
+            m.out.len() >= 2
+        },
+        fuel: 50_000_000,
+    };
     let stats = mcheck::run(ctx, cases.into_iter(), &hooks);
+    if ended_early.load(std::sync::atomic::Ordering::Relaxed) > 0 {
+        crate::pool::machinery_failure(&format!("C19: {} batch programs end before their last probe in the model", ended_early.load(std::sync::atomic::Ordering::Relaxed)));
+    }
 
     // ---- A3 negative contexts: direct expectations --------------------------------------------------
     let mut neg: Vec<(String, &'static str)> = Vec::new();
